@@ -373,6 +373,19 @@ func C12Build(r *sim.Run, modes []string) *C12Stream {
 			s.Bytes = append(work.RawStyp(), s.Bytes...)
 		}
 	}
+	// the media data boxes of one segment carry bytes no sample refers to (in front of the first sample, with the data
+	// offsets of the track runs moved along, and behind the last one): legal, and to be written back as it was read
+	if t.Chance(120) {
+		si := t.Draw(len(p.Segs))
+		lead, trail := t.Draw(17), t.Draw(9)
+		if nb, perr := work.PadMdat(p.Segs[si].Bytes, lead, trail); perr == nil && lead+trail > 0 {
+			p.Segs[si].Bytes = nb
+			r.Probe("mdat-with-unused-bytes")
+			if lead > 0 {
+				r.Probe("mdat-with-unused-leading-bytes")
+			}
+		}
+	}
 	// one of the foreign top-level boxes the producer put between the fragments (free, skip, prft, uuid, ...) is
 	// rewritten into the 64-bit size form (legal for any box): the positions of everything behind it then differ from
 	// the sum of the sizes the boxes have when they are written again
